@@ -67,6 +67,16 @@ CLAIMS = {
               "earlier output carrying the error column) in one process, each step compared with the result from a fresh interpreter."),
         note=TB + " Object-level caches (_vnodes, _faulty_junctions, swapped self.traces) are not modelled as state: that they are recomputed consistently is covered by S13 only (partial). Idempotence of the fix (linemerge of a merged line) is checked by S13's re-validation steps, not proved.",
         ref="DESIGN.md section 6 C13", technique="Lean 4 state-machine theorem (global-irrelevance for all oracles and histories) + history-based differential correspondence"),
+    "C10": dict(
+        text=("Proof (Lean 4) over the regenerated window expressions and defaults: UNDER/OVERLAPPING SNAP is reported exactly for t < d < t*m, TRACE UNDERLAPS TARGET AREA for "
+              "t <= d < t*m*a, an end already closer than t to some trace is not examined; for every t > 0 and multipliers >= 1 the same features at <= 0.9 x the lower or "
+              ">= 1.2 x the upper bound are not in the windows; defaults give (t, 1.1t) and [t, 1.65t), junction distance t*m, stacking buffer 5.5t, detection length 50t, "
+              "sharp-turn angles 135/100. Tie: translator + stream S10: one planted feature per map (undershoot, overshoot, end near an end, end near the boundary, "
+              "neighbour alongside) at gaps 0.5/0.9 x lower, mid-window, 1.2/2 x upper, orientations incl. axis-parallel, positions incl. near the target's ends, the other "
+              "end free or properly snapped, both digitising directions, offsets to UTM scale, thresholds 0.01 and 0.001; verdict vs the exact window spec evaluated on "
+              "exact squared distances in the driver."),
+        note=TB + " partial: the detectors' geometry (split, buffer, segmentize) is not modelled; SHARP TURNS and the triangle detector are not swept. F5 and F14 (stacking detection depended on float rounding; never for axis-parallel traces) were genuine defects here and are repaired.",
+        ref="DESIGN.md section 6 C10", technique="Lean 4 theorems over regenerated window expressions + orientation/position/magnitude sweep against exact distances"),
     "C12": dict(
         text=("Proof (Lean 4) over a hand model of determine_crosscut_abutting_relationships: the row of a pair of sets mentions only those two sets, so adding "
               "sets anywhere in the list (incl. empty ones) neither changes nor removes a row (C12_rows_independent, via sublist-monotonicity of combinations); "
